@@ -283,6 +283,50 @@ def run_one(ck, prog):
                     d = dict(zip(fields, ops))
                     ok = mentions(d.get("stack_addr"), c.prov, lambda z: z[0] == "call" and (z[1] or "").endswith("mmap::mmap")) and mentions(d.get("tsm"), c.prov, lambda z: z[0] == "call" and (z[1] or "").endswith("Tsm::init"))
         ck.ob("C06.4", "spawn-records-stack-mapping", ok, fn=T.SPAWN, detail="the ThreadDealloc record must hold the base of the stack mapping made by this spawn and this thread's join block")
+        # every unmap of the stack covers exactly what was mapped: the length mapped is the length recorded for the panic
+        # handler, the length handed to the trampoline's munmap, and the length unmapped on spawn's own failure path
+        def size_value(e):
+            e = strip_casts(e)
+            while isinstance(e, tuple) and e[0] == "call" and (e[1] or "").endswith("new_unchecked") and e[2]:
+                e = strip_casts(e[2][0])
+            v = fold(e)
+            return v if v is not None else canon(e)
+        is_map = lambda z: z[0] == "call" and (z[1] or "").endswith("mmap::mmap")
+        def is_base(e, depth=0):
+            # the mmap result itself, reached through casts / Result plumbing only (no arithmetic on the way)
+            e = strip_casts(e)
+            if not isinstance(e, tuple) or depth > 12:
+                return False
+            if is_map(e):
+                return True
+            if e[0] == "bin":
+                return False
+            if e[0] == "call":
+                return False
+            return any(is_base(x, depth + 1) for x in e[1:] if isinstance(x, tuple))
+        maps = T.call_blocks_suffix(c, "unistd::mmap::mmap")
+        if ck.anchor("C06.4", "spawn maps the stack once", len(maps) == 1 or None):
+            mapped = size_value(c.args(maps[0])[1])
+            uses = []
+            for b in s["blocks"]:
+                for i, st in enumerate(b["stmts"]):
+                    if st["k"] == "assign" and st["rv"]["k"] == "agg" and (st["rv"].get("adt") or "").endswith("ThreadDealloc"):
+                        d = dict(zip(st["rv"]["fields"], [c.prov.operand(o, (b["id"], i)) for o in st["rv"]["ops"]]))
+                        uses.append(("record", b["id"], d.get("stack_sz")))
+            for bb, t in c.cfg.calls(lambda t: (t.get("callee") or "").endswith("mmap::munmap")):
+                a = c.args(bb)
+                if a and mentions(a[0], c.prov, is_map):
+                    uses.append(("failure-unmap", bb, a[1]))
+            for bb, t in c.cfg.calls(lambda t: (t.get("callee") or "").endswith("__clone")):
+                a = c.args(bb)
+                if len(a) == 8:
+                    uses.append(("trampoline", bb, a[7]))
+                    ck.ob("C06.4", "trampoline-unmaps-from-the-mapping-base", is_base(a[6]), fn=T.SPAWN, site=c.site(bb),
+                          detail="the address the exiting thread unmaps must be the base returned by mmap")
+            ck.floor("C06.4", "stack-length-uses", len({u[0] for u in uses}), 3)
+            for kind, bb, e in uses:
+                ck.ob("C06.4", f"unmap-length-is-the-mapped-length|{kind}", e is not None and size_value(e) == mapped, fn=T.SPAWN, site=c.site(bb),
+                      detail=f"the stack is mapped with length {mapped} but the {kind} uses {size_value(e) if e is not None else None}: whatever is not unmapped stays mapped for good (or memory beyond the mapping is unmapped)")
 
     # ---- C06.5 closure box consumed -----------------------------------------------------------------------------------------------------
     sf = prog.fns.get(T.START_FN)
